@@ -337,6 +337,13 @@ func (g *Gen) OtherLine() *Node {
 	for i, n := 0, g.rng(1, 5); i < n; i++ {
 		attr.Set(g.pick("connectionId", "hostAndPort", "uuid", "totalTimeMillis", "hookTime", "client", "doc", "stats", "user", "mechanism", "namespace", "buildUUID")+fmt.Sprint(i), g.Soup(3))
 	}
+	if g.chance(0.3) {
+		// attributes that merely SHARE A NAME with a namespace-bearing command member (index builds, sharding and
+		// replication messages have attr.collection, attr.count, attr.update ...): ordinary attributes
+		for i, n := 0, g.rng(1, 3); i < n; i++ {
+			attr.Set(g.pick("collection", "count", "update", "insert", "find", "delete", "aggregate", "$db", "replace", "findAndModify", "getIndexes"), StrN(g.pick("orders", "12", "shop", "config.system.sessions", "")))
+		}
+	}
 	line.Set("attr", attr)
 	if g.chance(0.1) {
 		line.Set("tags", ArrN(StrN("startupWarnings")))
